@@ -168,7 +168,15 @@ func ruleEncodings(which string) ruleFn {
 			if add == nil || ext == nil || inj == nil {
 				return
 			}
-			seps := constArgs(inj, "strings.Split", 1)
+			// the split may sit in injectFile or in a helper of its package that it calls
+			var seps []string
+			for g := range r.P.CG.Reachable([]*ssa.Function{inj}, nil) {
+				if topFn(g).Pkg == topFn(inj).Pkg {
+					seps = append(seps, constArgs(g, "strings.Split", 1)...)
+				}
+			}
+			sort.Strings(seps)
+			seps = uniqSorted(seps)
 			if len(seps) != 1 {
 				r.Bad(rule, fnName(inj), "path separator", r.P.pos(inj.Pos()), "injectFile no longer splits the path on one constant separator")
 				return
@@ -378,4 +386,14 @@ func ruleUploadNumbering(r *Run) {
 		}
 	}
 	r.AtLeast(rule, "part-naming sites", n, 2)
+}
+
+func uniqSorted(in []string) []string {
+	var out []string
+	for i, x := range in {
+		if i == 0 || x != in[i-1] {
+			out = append(out, x)
+		}
+	}
+	return out
 }
